@@ -109,11 +109,35 @@ def post(cov, cases, recs):
     cov["raised_under_false_guard"] = sum(1 for r in recs if r["exn"] and r.get("exn_ctx") and false_guard(r["exn_ctx"]))
 
 
+def pack_cases():
+    """pack / unpack of a secret value inside a guarded region (matrix layout: operand = input 0, guards = inputs 2 and 3): with the guard
+    false nothing is raised whatever the bits decode to; with the guard true the region behaves as if it were not guarded"""
+    out = []
+    for sch in (["intmod", 5], ["intmod", 100], ["list", [["bool"], ["intmod", 5]]], ["repeat", ["intmod", 6], 2]):
+        for ctx in ("g1", "lazy1", "g0", "lazy0", "if0"):
+            prog, nreg = [], [0]
+            if sch[0] == "intmod":
+                a = matrixcases._operand(prog, nreg, "lc", 0, 3); src = a
+            elif sch[0] == "list":
+                a = matrixcases._operand(prog, nreg, "lc", 1, 1); b = matrixcases._operand(prog, nreg, "lc", 0, 3)
+                src = nreg[0]; nreg[0] += 1; prog.append(["list", src, [a, b]])
+            else:
+                a = matrixcases._operand(prog, nreg, "lc", 0, 3); b = matrixcases._operand(prog, nreg, "lc", 1, 1)
+                src = nreg[0]; nreg[0] += 1; prog.append(["list", src, [a, b]])
+            d1 = nreg[0]; d2 = nreg[0] + 1; nreg[0] += 2
+            body, gv = matrixcases._wrap(ctx, [["pack", d1, sch, src], ["unpack", d2, sch, d1]], nreg, d2)
+            # in the regions that are not taken the secret holds a value whose bits decode to something outside the field (7 for moduli 5 and 6, 127 for 100)
+            v0 = 3 if ctx in ("g1", "lazy1") else (127 if sch == ["intmod", 100] else 7)
+            out.append(dict(cfg=dict(p=progs.BN, n=8, res=2, ign=0), prog=prog + body, ins=[v0, 1, gv[0], gv[1]], matrix="pack-unpack:%s:%s" % (sch[0], ctx)))
+    return out
+
+
 def run(tier, seed):
     # deterministic part: every assertion / decomposition / division x operand kinds inside guarded regions, each run with the
     # guards false on arbitrary operands (inert), true (transparent) and with the regions inlined
     pending = matrixcases.assertion_contexts(tier, ctxs=["g1", "g1g1", "lazy1"], bin_ctxs=["g1"])
     if tier == "quick": pending = pending[seed % 2::2]            # half of the matrix per run (which half depends on the seed)
+    pending += pack_cases()
     pending += block_cases(seed, 24 if tier == "quick" else 300)
     return tracecheck.run(PID, tier, seed, PROFILE, oracle, n_quick=4 * len(pending) + 320, n_thorough=4 * len(pending) + 6000, variants=variants, post=post, mask=1 | 2 | 4 | 8,
                           casegen=matrixcases.with_pending(pending, PROFILE))
